@@ -318,6 +318,9 @@ def send_contract(B, cls, tls):
         B.prove("result-is-kernel-count", E.values_equal(B.ctx, B.env["result"], sock.last_accept), top=True, props=["C09"])
     if B.raised():
         B.prove("raise/wire-unchanged", "wire == b''", top=True, props=["C09"])
+    # frame: sending reads nothing -- bytes the far side sent are taken from the socket by receive() only, which appends them to
+    # .rxbs; a send that called recv() would consume received bytes that never reach the receive buffer
+    B.prove("send-reads-nothing-from-the-socket", sock.nrecv == 0, top=True, props=["C09"])
     c10_clauses(B, net, self, "send")
     B.no_other_exception()
 
